@@ -60,16 +60,27 @@ theorem incr_nonincreasing {α ε} [DecidableEq α] (m : α → ε → Bool) (pa
   Lemmas.incr_nonincreasing m pats idx exs freqs hlen sd r h
 
 /-- Every reported entry is one of the input patterns, reported once, and its
-    `n` / `n_uniq` fields are that pattern's coverage over all the examples. -/
+    `n` / `n_uniq` fields are that pattern's coverage over all the examples.
+    `hpos`: frequencies are positive — `Extractor.clean` drops zero counts
+    (rexpy.py:647-648); with a zero frequency `n_uniq` under-counts (the deduped
+    matrix is derived from `n if match else 0`), witness below. -/
 theorem incr_fields_exact {α ε} [DecidableEq α] (m : α → ε → Bool) (pats : List α) (idx : List Nat)
-    (exs : List ε) (freqs : List Nat) (hlen : freqs.length = exs.length) (sd : Bool)
+    (exs : List ε) (freqs : List Nat) (hlen : freqs.length = exs.length)
+    (hpos : ∀ f ∈ freqs, 0 < f) (sd : Bool)
     (r : List (α × Cov))
     (h : fullIncr pats idx (bsOf m pats exs) freqs sd = some r) :
     (keys r).Nodup ∧
     ∀ kc ∈ r, kc.1 ∈ pats ∧
       kc.2.n = rexCoverage1 false ((exs.map (m kc.1)).zip freqs) ∧
       kc.2.nUniq = rexCoverage1 true ((exs.map (m kc.1)).zip freqs) :=
-  Lemmas.incr_fields_exact m pats idx exs freqs hlen sd r h
+  Lemmas.incr_fields_exact m pats idx exs freqs hlen hpos sd r h
+
+/-- the guard `hpos` is needed: a matched example of frequency 0 is not counted in `n_uniq` -/
+example :
+    fullIncr ["p"] [0] (bsOf (fun _ _ => true) ["p"] [10, 11]) [0, 1] false
+      = some [("p", ⟨1, 1, 1, 1, 0⟩)]
+    ∧ rexCoverage1 true (([10, 11].map ((fun _ _ => true : String → Nat → Bool) "p")).zip [0, 1]) = 2 := by
+  decide
 
 /- Non-vacuity: a concrete overlapping instance on which the hypotheses hold and
    the loop does real work (two productive iterations, one pattern dropped). -/
